@@ -189,7 +189,7 @@ func checkRoundTrip(r *fw.R, draws []rtDraw) {
 		}
 		h := math.Max(oracle.HausdorffOneSided(epl, gpl, 1, false), oracle.HausdorffOneSided(gpl, epl, 1, false))
 		r.Max("roundtrip_geometry_distance_mm", h)
-		if h > 1e-4 {
+		if !(h <= 1e-4) {
 			r.Violate("roundtrip-geometry", fmt.Sprintf("%s: geometry read back differs by %.4g mm; document: %s", at, h, show))
 			return
 		}
@@ -209,7 +209,7 @@ func checkRoundTrip(r *fw.R, draws []rtDraw) {
 		}
 		if e.Style.HasStroke() {
 			ew, gw := e.Style.StrokeWidth*scaleOf(e.M), g.Style.StrokeWidth*scaleOf(g.M)
-			if math.Abs(ew-gw) > 1e-6*math.Max(1, ew) {
+			if !(math.Abs(ew-gw) <= 1e-6*math.Max(1, ew)) {
 				r.Violate("roundtrip-stroke-width", fmt.Sprintf("%s: effective stroke width %.6g mm was read back as %.6g mm; document: %s", at, ew, gw, show))
 				return
 			}
